@@ -1440,7 +1440,10 @@ def _zip(I, args, kwargs, node):
 
 @builtin("enumerate")
 def _enumerate(I, args, kwargs, node):
-    return list(enumerate(I.iterate(args[0])))
+    start = args[1] if len(args) > 1 else kwargs.get("start", 0)
+    if not isinstance(start, int):
+        raise Undecided("enumerate start is not a concrete integer")
+    return list(enumerate(I.iterate(args[0]), start))
 
 
 @builtin("range")
